@@ -946,7 +946,7 @@ def gen_triangle(rng, stream, c):
     return Prim("triangle", v=np.array([c, c + A([1.0, 0, 0]), c + A([0, 1.0, 0])]))
 
 
-def gen_prim(kind, rng, stream, c):
+def gen_prim(kind, rng, stream, c, extreme=0.12):
     if kind == "triangle":
         return gen_triangle(rng, stream, c)
     if stream == "L":
@@ -957,6 +957,12 @@ def gen_prim(kind, rng, stream, c):
         s = log_size(rng)
         # moderate aspect ratios inside one primitive, every size within [0.2, 100]
         sizes = [min(100.0, max(0.2, s * math.exp(rng.uniform(-1.2, 1.2)))) for _ in range(3)]
+        if kind in ("ellipsoid", "box", "cylinder") and rng.random() < extreme:
+            # the corners of the size domain: needles and pancakes with aspect ratios of several hundred (iteration
+            # caps and start values tuned on moderate shapes stop early there)
+            big, small = rng.uniform(40.0, 100.0), rng.uniform(0.2, 0.4)
+            sizes = rng.choice([[big, small, small], [small, big, small], [small, small, big],
+                                [big, big, small], [small, big, big]])
     return make_prim(kind, R, c, sizes)
 
 
@@ -1024,7 +1030,15 @@ def gen_pair(fn, rng, stream):
         return P1, P2
     base = A([rng.uniform(-1, 1) for _ in range(3)]) * (10 ** rng.uniform(-1, 2.5))
     P1 = gen_prim(k1, rng, "G", base)
-    P2 = gen_prim(k2, rng, "G", base)
+    # the iterative point_to_ellipsoid is the function most sensitive to extreme aspect ratios
+    P2 = gen_prim(k2, rng, "G", base, extreme=(0.5 if fn == "point_to_ellipsoid" else 0.12))
+    if k1 == "point" and P2.frame is not None and rng.random() < 0.6:
+        Rf, hf = P2.frame
+        if float(np.max(hf)) > 50.0 * float(np.min(hf)):
+            # a needle / pancake: the query point sits BESIDE the long extent, a few thin radii away from the surface
+            al = A([rng.uniform(-0.95, 0.95) if hf[i] > 10.0 * float(np.min(hf)) else rng.choice([-1.0, 1.0]) * rng.uniform(1.5, 6.0)
+                    for i in range(3)])
+            return Prim("point", x=P2.center() + Rf.dot(al * hf)), P2
     # place P2 at a chosen gap from P1 along a random direction
     u = unit(A([rng.gauss(0, 1) for _ in range(3)]))
     reach = P1.radius() + P2.radius()
